@@ -82,7 +82,14 @@ def make_client(ops, plugin_cfg):
             return r
     plugins = []
     if plugin_cfg["installed"]:
-        plugins.append(z.wsa.WsAddressingPlugin(address_url=plugin_cfg.get("override")))
+        cls = z.wsa.WsAddressingPlugin
+        if plugin_cfg.get("subclass"):
+            # an application's own flavour of the plugin (e.g. one that also logs): still *the* addressing plugin
+            class LoggingWsa(z.wsa.WsAddressingPlugin):
+                def ingress(self, envelope, http_headers, operation):
+                    return envelope, http_headers
+            cls = LoggingWsa
+        plugins.append(cls(address_url=plugin_cfg.get("override")))
     c = z.Client(io.BytesIO(wsdl(ops).encode()), transport=T(), plugins=plugins)
     return c, captured
 
@@ -97,6 +104,16 @@ def header_entries(env):
         name = ("wsa:" + q.localname) if q.namespace == WSA else "{%s}%s" % (q.namespace, q.localname)
         out.append([name, c.text or ""])
     return out
+
+
+MANAGED = ("wsa:Action", "wsa:MessageID", "wsa:To")
+
+
+def fail_reply_to(env, k):
+    """the caller's wsa:ReplyTo must still carry its Address child"""
+    h = env.find("{%s}Header" % ENV)
+    r = None if h is None else h.find("{%s}ReplyTo" % WSA)
+    return r is None or r.findtext("{%s}Address" % WSA) != "http://reply.example/r%d" % k
 
 
 OP_SHAPES = []
@@ -117,7 +134,8 @@ def run(ctx):
     all_ids = []
     pending = []   # (model op, observed entries, case)
     shapes = OP_SHAPES if ctx.tier == "thorough" or ctx.budget > 1 else OP_SHAPES
-    plugin_cfgs = [dict(installed=0), dict(installed=1), dict(installed=1, override="http://override.example/x")]
+    plugin_cfgs = [dict(installed=0), dict(installed=1), dict(installed=1, override="http://override.example/x"),
+                   dict(installed=1, subclass=1), dict(installed=1, subclass=1, override="http://override.example/y")]
     for si, shape in enumerate(shapes):
         ops = [dict(shape, name="op1"), dict(OP_SHAPES[(si * 7 + 3) % len(OP_SHAPES)], name="op2")]
         for pc in plugin_cfgs:
@@ -130,7 +148,7 @@ def run(ctx):
                    (svc_c, "http://c.example/created", "op1"), (svc_a, "http://a.example/svc", "op1")]
             for k, (svc, addr, opname) in enumerate(seq):
                 o = ops[0] if opname == "op1" else ops[1]
-                hdr_form = (k + si) % 3
+                hdr_form = (k + si) % 4
                 caller = []
                 kwargs = {}
                 if hdr_form == 1:
@@ -145,6 +163,16 @@ def run(ctx):
                     e2.text = ""
                     kwargs["_soapheaders"] = [e1, e2]
                     caller = [["{urn:custom}A", "a"], ["{urn:other}B", ""]]
+                elif hdr_form == 3:
+                    # addressing properties the caller sets itself (reply routing, correlation): other entries of the header
+                    e1 = etree.Element("{%s}ReplyTo" % WSA)
+                    etree.SubElement(e1, "{%s}Address" % WSA).text = "http://reply.example/r%d" % k
+                    e2 = etree.Element("{%s}RelatesTo" % WSA)
+                    e2.text = "urn:uuid:rel%d" % k
+                    e3 = etree.Element("{urn:custom}A")
+                    e3.text = "a3"
+                    kwargs["_soapheaders"] = [e1, e2, e3]
+                    caller = [["wsa:ReplyTo", ""], ["wsa:RelatesTo", "urn:uuid:rel%d" % k], ["{urn:custom}A", "a3"]]
                 del captured[:]
                 declared = o["in_action"][1] if o["in_action"] else None
                 applies = declared is not None or pc["installed"] == 1
@@ -166,15 +194,17 @@ def run(ctx):
                 entries = header_entries(env)
                 res.case(key=(str(o), str(pc), addr, k, str(caller)), nontrivial=applies or bool(caller))
                 res.count("applies" if applies else "no-addressing")
-                res.count("plugin:%s" % ("override" if pc.get("override") else pc["installed"]))
+                res.count("plugin:%s%s" % ("override" if pc.get("override") else pc["installed"], "-subclass" if pc.get("subclass") else ""))
                 res.count("declared:" + (o["in_action"][0] if o["in_action"] else "none"))
                 # ---- the statement, directly
-                wsa = [e for e in entries if e[0].startswith("wsa:")]
-                others = [e for e in entries if not e[0].startswith("wsa:")]
+                wsa = [e for e in entries if e[0] in MANAGED]
+                others = [e for e in entries if e[0] not in MANAGED]
                 body = env.find("{%s}Body" % ENV)
                 fail = None
                 if others != caller:
                     fail = "caller header entries changed: %r vs %r" % (others, caller)
+                elif hdr_form == 3 and fail_reply_to(env, k):
+                    fail = "caller-supplied wsa:ReplyTo lost its Address"
                 elif body is None or len(body) != 1 or body[0].text != "payload%d" % k:
                     fail = "Body affected"
                 elif not applies:
@@ -215,9 +245,9 @@ def run(ctx):
     res.programs = len(shapes) * len(plugin_cfgs)
     res.exhaustive = True
     res.rule = ("operation shapes: input action {none, wsam, wsaw} x output action on/off x fault action on/off x child order "
-                "{input first, output first, fault first} x soapAction {value, empty, absent}; x plugin {absent, present, override address}; "
+                "{input first, output first, fault first} x soapAction {value, empty, absent}; x plugin {absent, present, override address, a subclass of the plugin without / with override}; "
                 "each client runs 5 calls over two ports sharing the binding, a created service and a second operation, caller headers in "
-                "three forms. distinct = distinct (operation shape, plugin, address, position, caller headers)")
+                "four forms (none, one custom entry, two entries, caller-set wsa:ReplyTo / wsa:RelatesTo beside a custom entry). distinct = distinct (operation shape, plugin, address, position, caller headers)")
     return res
 
 
